@@ -1971,7 +1971,9 @@ Qed.
 (** ** Reset *)
 
 (** D_reset_spec. Reset of an unlocked world in which every archetype without relation components has
-    its table (hypothesis (A) of [reset_empty_partial]; necessary: [reset_fails_without_table]) succeeds and
+    its table (hypothesis (A) of [reset_empty_partial]; necessary: [reset_fails_without_table]; it is the clause
+    [archs_tabled_norel] of WF.v, which holds in every state of a covered history since the repair of
+    createArchetype: Rel2Hist, [reachable_inv2T] / [reachable_reset_succeeds]) succeeds and
     yields a world that satisfies [St2] (and [r2d_KeysLive]), has no stored entity, only empty tables, every
     relation table freed, all lookups empty, no table list left in an archetype with relation components, an
     empty cache, no target flag except possibly those of the two reserved ids, and the pool back at its two
